@@ -3,6 +3,7 @@
 pub mod big;
 pub mod engine;
 pub mod gen;
+pub mod optional;
 pub mod probe;
 pub mod recip;
 
